@@ -155,15 +155,25 @@ def verify_function(ex, qualname, contract, make_env, frame_obj='self',
                                          rn.fields[fld])
                         if e is not None:
                             cx.oblige(o, 'frame/' + fld, e, kind='frame')
+                    n_frame = len([1 for ob in cx.obligations[n_before:]
+                                   if ob.meta.get('kind') == 'frame'])
                     for g in ghost_frame:
                         if g in contract.mod_ghost:
                             continue
                         go, gn = old.ghost.get(g), o.ghost.get(g)
                         if go is gn:
                             continue
+                        if z3.is_expr(go) and z3.is_expr(gn):
+                            cx.oblige(o, 'frame/$' + g, go == gn, kind='frame')
+                            continue
                         e = values_equal(ex, old, go, o, gn)
                         if e is not None:
                             cx.oblige(o, 'frame/$' + g, e, kind='frame')
+                    if not contract.mod_fields and not contract.mod_ghost:
+                        # read-only function: record the frame result even
+                        # when every location is identical by construction
+                        cx.oblige(o, 'frame/nothing_modified',
+                                  z3.BoolVal(True), kind='frame')
                 if extra_exit is not None:
                     extra_exit(ex, old, o)
             elif o.status == 'raise':
